@@ -755,6 +755,18 @@ func listCase(sc *Scenario) {
 	}
 
 	stringCases(sc, reg.Log, outcome)
+	// how many bytes of each decoded answer were consumed: the model of limitReader + decoder buffering
+	for _, x := range reg.Log {
+		if x.Status == 200 && x.JSONOK && x.Kind != 'M' && (x.Kind != 'R' || x.CType == ocispec.MediaTypeImageIndex) &&
+			!(x.Dec.NullBody == 1 && len(x.Page) == 0) && run.Rand.Chance(1, 3) {
+			bid := run.NewID()
+			run.Case(bid, fmt.Sprintf("RB %d %d %d", sc.Limit, x.DocLen, x.TotalLen), strconv.Itoa(x.BytesRead()))
+			run.Count("bytes_consumed")
+			if int64(x.DocLen) > effLimit(sc.Limit) || x.TotalLen > 512 {
+				run.Count("bytes_consumed_nontrivial")
+			}
+		}
+	}
 	// the document length the fake declares (model input rs_doc_len) is where the decoder -- and the
 	// bracket scanner of Model/PagingJson.v -- find the end of the first value of the body
 	for _, x := range reg.Log {
@@ -2325,7 +2337,7 @@ func coverageFloors() {
 		return n
 	}
 	floors := map[string]int{
-		"json_listing_body": 200, "json_OK": 200, "json_IN": 500, "string_loop": 2000, "string_first_request": 1000, "string_next_request_NEXT": 1000, "string_next_request_NONE": 300, "string_next_request_ERR": 10,
+		"bytes_consumed": 1000, "bytes_consumed_nontrivial": 100, "json_listing_body": 200, "json_OK": 200, "json_IN": 500, "string_loop": 2000, "string_first_request": 1000, "string_next_request_NEXT": 1000, "string_next_request_NONE": 300, "string_next_request_ERR": 10,
 		"string_set_query": 300, "string_escape": 200, "string_resolve_OK": 200, "string_resolve_ER": 50,
 		"cursor_opaque": 100, "hidden_entries": 100, "list_empty_page_with_link": 20, "link_raw_pairs": 50, "link_other_path": 50, "link_after_redirect": 30, "link_further_values": 100, "link_rel_first_stream": 5,
 		"list_link_missing_midway": 5, "json_shape_variant": 100, "registry_page": 1000, "exhaustive": 200,
